@@ -223,7 +223,14 @@ pub fn parse_leaf(s: &str) -> (String, Option<i128>) {
 pub fn tag_violations(decl: &BTreeMap<String, Ty>, dump: &BTreeMap<String, String>) -> Vec<(String, Ty, String, bool)> {
     let mut out = Vec::new();
     for (path, ty) in decl {
-        let Some(leaf) = dump.get(path) else { continue };
+        let Some(leaf) = dump.get(path) else {
+            // a declared leaf that vanished from a non-empty state (e.g. an array replaced by one of
+            // another shape): reported as tag "<missing>"
+            if !dump.is_empty() && dump.keys().any(|k| k.starts_with("Main.")) {
+                out.push((path.clone(), *ty, "<missing>".to_string(), true));
+            }
+            continue;
+        };
         let (tag, mag) = parse_leaf(leaf);
         if tag != ty.tag() {
             out.push((path.clone(), *ty, tag, true));
